@@ -1,2 +1,722 @@
-(* Proofs for property C06. *)
-From SC.Model Require Import Base.
+(* Proofs for property C06 (money literals, currency conversion, money arithmetic, rate updates).
+
+   1. association lists        assoc / assoc_insert (the model of BTreeMap::insert)
+   2. convert_money            the conversion rule: operation sequence for any Num, a * rB / rA over Q
+   3. calculate on money       + - convert the right operand into the left currency, * / by numbers,
+                               money / money
+   4. histories                Corr.step / Corr.run: the rate table after any history, one update
+                               changes one currency, last write wins, evaluation changes nothing
+   5. finite tables            regenerated currency / alias / rate tables: lookups in any letter
+                               case, aliases, rates finite and non-zero, all ordered pairs
+   6. literals                 Lexer.money_body and every spelling over the currency table
+   7. examples                 non-vacuity at binary64 *)
+From Coq Require Import QArith Qcanon Floats.
+From SC.Model Require Import Base Num NumF64 NumQ Types Config Case Chrono Parser RuleFns Items Lexer Api Run64 Corr.
+From SC.Spec Require Import Money.
+From SC.Gen Require Import RustConsts ConfigData.
+
+(* 1. association lists *)
+Lemma str_eqb_neq a b : a <> b -> str_eqb a b = false.
+Proof. intro H. destruct (str_eqb a b) eqn:E; auto. apply str_eqb_eq in E. contradiction. Qed.
+
+Lemma str_eqb_sym a b : str_eqb a b = str_eqb b a.
+Proof.
+  destruct (str_eqb a b) eqn:E.
+  - apply str_eqb_eq in E. subst. symmetry. apply str_eqb_refl.
+  - destruct (str_eqb b a) eqn:E'; auto. apply str_eqb_eq in E'. subst. rewrite str_eqb_refl in E. discriminate.
+Qed.
+
+Lemma assoc_insert_same {A} k (v : A) l : assoc k (assoc_insert k v l) = Some v.
+Proof.
+  induction l as [|[k' v'] l IH]; cbn [assoc_insert assoc].
+  - rewrite str_eqb_refl. reflexivity.
+  - destruct (str_eqb k k') eqn:E.
+    + cbn [assoc]. rewrite str_eqb_refl. reflexivity.
+    + destruct (str_ltb k k'); cbn [assoc].
+      * rewrite str_eqb_refl. reflexivity.
+      * rewrite E. exact IH.
+Qed.
+
+Lemma assoc_insert_other {A} k k0 (v : A) l : k0 <> k -> assoc k0 (assoc_insert k v l) = assoc k0 l.
+Proof.
+  intro Hne. pose proof (str_eqb_neq _ _ Hne) as Hf.
+  induction l as [|[k' v'] l IH]; cbn [assoc_insert assoc].
+  - rewrite Hf. reflexivity.
+  - destruct (str_eqb k k') eqn:E.
+    + apply str_eqb_eq in E. subst k'. cbn [assoc]. rewrite Hf. reflexivity.
+    + destruct (str_ltb k k'); cbn [assoc].
+      * rewrite Hf. reflexivity.
+      * rewrite IH. reflexivity.
+Qed.
+
+Lemma assoc_insert_spec {A} k k0 (v : A) l :
+  assoc k0 (assoc_insert k v l) = if str_eqb k0 k then Some v else assoc k0 l.
+Proof.
+  destruct (str_eqb k0 k) eqn:E.
+  - apply str_eqb_eq in E. subst. apply assoc_insert_same.
+  - apply assoc_insert_other. intro; subst. rewrite str_eqb_refl in E. discriminate.
+Qed.
+
+Lemma assoc_In {A} k (v : A) l : assoc k l = Some v -> In (k, v) l.
+Proof.
+  induction l as [|[k' v'] l IH]; cbn [assoc]; intro H; [discriminate|].
+  destruct (str_eqb k k') eqn:E.
+  - apply str_eqb_eq in E. inversion H; subst. left; reflexivity.
+  - right. auto.
+Qed.
+
+(* 2. conversion *)
+Section WithNum.
+Context {F : Type} {NF : Num F}.
+
+Lemma get_money_has (vs : vars F) k fs x : get_money vs (s k) fs = Some x -> has k fs = true.
+Proof.
+  unfold get_money, field_token, has, assoc_mem. destruct (assoc (s k) fs); [reflexivity|discriminate].
+Qed.
+
+Lemma get_currency_has (cfg : config F) (vs : vars F) k fs x : get_currency cfg vs (s k) fs = Some x -> has k fs = true.
+Proof.
+  unfold get_currency, field_token, has, assoc_mem. destruct (assoc (s k) fs); [reflexivity|discriminate].
+Qed.
+
+Theorem convert_money_ops : forall (cfg : config F) (vs : vars F) fs a A B rA rB,
+  get_money vs (s "money") fs = Some (a, A) ->
+  get_currency cfg vs (s "currency") fs = Some B ->
+  rate_of cfg A = Some rA -> rate_of cfg B = Some rB ->
+  convert_money cfg vs fs = Ok (Some (TMoney (fmul (do_division a rA) rB) B)).
+Proof.
+  intros cfg vs fs a A B rA rB Hm Hc HA HB. unfold convert_money.
+  rewrite (get_money_has _ _ _ _ Hm), (get_currency_has _ _ _ _ _ Hc), Hm, Hc, HA, HB. reflexivity.
+Qed.
+
+Theorem convert_money_exact : forall (cfg : config F) (vs : vars F) fs,
+  convert_money cfg vs fs =
+  match get_money vs (s "money") fs, get_currency cfg vs (s "currency") fs with
+  | Some (a, A), Some B =>
+    match rate_of cfg A, rate_of cfg B with
+    | Some rA, Some rB => Ok (Some (TMoney (fmul (do_division a rA) rB) B))
+    | _, _ => Ok None
+    end
+  | _, _ => Ok None
+  end.
+Proof.
+  intros. unfold convert_money, none, some.
+  destruct (get_money vs (s "money") fs) as [[a A]|] eqn:Hm.
+  - rewrite (get_money_has _ _ _ _ Hm).
+    destruct (get_currency cfg vs (s "currency") fs) as [B|] eqn:Hc.
+    + rewrite (get_currency_has _ _ _ _ _ Hc). cbn [andb].
+      destruct (rate_of cfg A); [|reflexivity]. destruct (rate_of cfg B); reflexivity.
+    + destruct (has "currency" fs); reflexivity.
+  - destruct (has "money" fs && has "currency" fs); [|reflexivity].
+    destruct (get_currency cfg vs (s "currency") fs); reflexivity.
+Qed.
+
+Definition ti_of (t : token F) : token_info F :=
+  {| ti_start := 0%N; ti_end := 0%N; ti_ty := Some t; ti_text := []; ti_active := true |}.
+
+End WithNum.
+
+(* Q *)
+Lemma do_division_Q (l r : Qc) : do_division l r = (l / r)%Qc.
+Proof. reflexivity. Qed.
+
+Lemma conv_ops (rA rB a : Qc) : rA <> Q2Qc 0 -> fmul (do_division a rA) rB = conv rA rB a.
+Proof. intro H. rewrite do_division_Q. unfold conv. cbn [fmul NumQ]. field. exact H. Qed.
+
+Lemma conv_id (r a : Qc) : r <> Q2Qc 0 -> conv r r a = a.
+Proof. intro H. unfold conv. field. exact H. Qed.
+
+Theorem convert_money_Q : forall (cfg : config Qc) (vs : vars Qc) fs a A B rA rB,
+  get_money vs (s "money") fs = Some (a, A) ->
+  get_currency cfg vs (s "currency") fs = Some B ->
+  rate_of cfg A = Some rA -> rate_of cfg B = Some rB -> rA <> Q2Qc 0 ->
+  convert_money cfg vs fs = Ok (Some (TMoney (conv rA rB a) B)).
+Proof.
+  intros. rewrite (convert_money_ops cfg vs fs a A B rA rB) by assumption.
+  rewrite conv_ops by assumption. reflexivity.
+Qed.
+
+Theorem convert_money_Q_id : forall (cfg : config Qc) (vs : vars Qc) fs a A rA,
+  get_money vs (s "money") fs = Some (a, A) ->
+  get_currency cfg vs (s "currency") fs = Some A ->
+  rate_of cfg A = Some rA -> rA <> Q2Qc 0 ->
+  convert_money cfg vs fs = Ok (Some (TMoney a A)).
+Proof.
+  intros. rewrite (convert_money_Q cfg vs fs a A A rA rA) by assumption.
+  rewrite conv_id by assumption. reflexivity.
+Qed.
+
+Section Calc.
+Context {F : Type} {NF : Num F}.
+Variable bexec : config F -> str -> res (option F).
+
+Theorem convert_currency_ops : forall (cfg : config F) A b B rA rB,
+  rate_of cfg A = Some rA -> rate_of cfg B = Some rB ->
+  convert_currency cfg A b B = fmul (do_division b rB) rA.
+Proof. intros. unfold convert_currency. rewrite H, H0. reflexivity. Qed.
+
+Theorem money_calc_ops : forall (cfg : config F) a A b B n nt,
+  calculate bexec cfg (IMoney a A) (IMoney b B) OAdd = Ok (Some (IMoney (fadd a (convert_currency cfg A b B)) A)) /\
+  calculate bexec cfg (IMoney a A) (IMoney b B) OSub = Ok (Some (IMoney (fsub a (convert_currency cfg A b B)) A)) /\
+  calculate bexec cfg (IMoney a A) (IMoney b B) ODiv = Ok (Some (INumber (do_division a (convert_currency cfg A b B)) Decimal)) /\
+  calculate bexec cfg (IMoney a A) (INumber n nt) OMul = Ok (Some (IMoney (fmul a n) A)) /\
+  calculate bexec cfg (IMoney a A) (INumber n nt) ODiv = Ok (Some (IMoney (do_division a n) A)).
+Proof. intros. repeat split; reflexivity. Qed.
+End Calc.
+
+Theorem money_calc_Q : forall bexec (cfg : config Qc) a A b B rA rB n nt,
+  rate_of cfg A = Some rA -> rate_of cfg B = Some rB -> rB <> Q2Qc 0 ->
+  calculate bexec cfg (IMoney a A) (IMoney b B) OAdd = Ok (Some (IMoney (a + conv rB rA b)%Qc A)) /\
+  calculate bexec cfg (IMoney a A) (IMoney b B) OSub = Ok (Some (IMoney (a - conv rB rA b)%Qc A)) /\
+  calculate bexec cfg (IMoney a A) (IMoney b B) ODiv = Ok (Some (INumber (a / conv rB rA b)%Qc Decimal)) /\
+  calculate bexec cfg (IMoney a A) (INumber n nt) OMul = Ok (Some (IMoney (a * n)%Qc A)) /\
+  calculate bexec cfg (IMoney a A) (INumber n nt) ODiv = Ok (Some (IMoney (a / n)%Qc A)).
+Proof.
+  intros bexec cfg a A b B rA rB n nt HA HB Hnz.
+  destruct (money_calc_ops bexec cfg a A b B n nt) as (H1 & H2 & H3 & H4 & H5).
+  rewrite H1, H2, H3, H4, H5.
+  rewrite (convert_currency_ops cfg A b B rA rB HA HB), (conv_ops rB rA b Hnz).
+  repeat split; reflexivity.
+Qed.
+
+(* 4. histories *)
+Definition state_after (ck : clock) (m : mstate) (ops : list op) : mstate :=
+  fold_left (fun m o => fst (step ck m o)) ops m.
+
+Lemma run_app ck ops1 : forall m ops2,
+  run ck m (ops1 ++ ops2) = run ck m ops1 ++ run ck (state_after ck m ops1) ops2.
+Proof.
+  induction ops1 as [|o r IH]; intros m ops2; [reflexivity|].
+  cbn [app run state_after fold_left]. destruct (step ck m o) as [m' ob] eqn:E. cbn [fst].
+  rewrite IH. reflexivity.
+Qed.
+
+Lemma state_after_app ck m ops1 ops2 :
+  state_after ck m (ops1 ++ ops2) = state_after ck (state_after ck m ops1) ops2.
+Proof. unfold state_after. apply fold_left_app. Qed.
+
+Definition is_update (o : op) : bool := match o with OUpdateCurrency _ _ => true | _ => false end.
+
+(* the part of the configuration that money depends on *)
+Definition names_of (c : config F) := (cf_currency c, cf_currency_alias c).
+
+Lemma step_update ck m name r :
+  step ck m (OUpdateCurrency name r) =
+  match read_currency (m_cfg m) name with
+  | Some X => (with_cfg m (set_rates (m_cfg m) (assoc_insert X r (cf_rates (m_cfg m)))), MRet (Some true))
+  | None => (m, MRet (Some false))
+  end.
+Proof. reflexivity. Qed.
+
+Lemma step_other ck m o : is_update o = false ->
+  cf_rates (m_cfg (fst (step ck m o))) = cf_rates (m_cfg m) /\
+  names_of (m_cfg (fst (step ck m o))) = names_of (m_cfg m).
+Proof.
+  intro H. destruct o; try discriminate H; unfold step.
+  all: try (split; reflexivity).
+  all: repeat match goal with
+       | |- context [match ?x with _ => _ end] => destruct x eqn:?; try (split; reflexivity)
+       end.
+Qed.
+
+Definition updates_of (ops : list op) : list (str * F) :=
+  flat_map (fun o => match o with OUpdateCurrency n r => [(n, r)] | _ => [] end) ops.
+
+(* accepted updates, by currency code *)
+Definition resolved (cfg : config F) (ops : list op) : list (str * F) :=
+  flat_map (fun o => match o with
+                     | OUpdateCurrency n r => match read_currency cfg n with Some X => [(X, r)] | None => [] end
+                     | _ => [] end) ops.
+
+Lemma read_currency_names (c1 c2 : config F) :
+  names_of c1 = names_of c2 -> forall n, read_currency c1 n = read_currency c2 n.
+Proof. unfold names_of, read_currency. intros H n. inversion H as [[H1 H2]]. rewrite H1, H2. reflexivity. Qed.
+
+Lemma step_names ck m o : names_of (m_cfg (fst (step ck m o))) = names_of (m_cfg m).
+Proof.
+  destruct (is_update o) eqn:E.
+  - destruct o; try discriminate E. rewrite step_update. destruct (read_currency (m_cfg m) cur); reflexivity.
+  - apply step_other. exact E.
+Qed.
+
+Theorem names_after ck ops : forall m, names_of (m_cfg (state_after ck m ops)) = names_of (m_cfg m).
+Proof.
+  induction ops as [|o r IH]; intro m; [reflexivity|].
+  change (state_after ck m (o :: r)) with (state_after ck (fst (step ck m o)) r).
+  rewrite IH. apply step_names.
+Qed.
+
+Theorem read_currency_after ck ops m n :
+  read_currency (m_cfg (state_after ck m ops)) n = read_currency (m_cfg m) n.
+Proof. apply read_currency_names. apply names_after. Qed.
+
+(* the rate table after any history is the fold of the accepted updates *)
+Theorem rates_after_fold ck ops : forall m,
+  cf_rates (m_cfg (state_after ck m ops)) =
+  fold_left (fun l u => assoc_insert (fst u) (snd u) l) (resolved (m_cfg m) ops) (cf_rates (m_cfg m)).
+Proof.
+  induction ops as [|o r IH]; intro m; [reflexivity|].
+  change (state_after ck m (o :: r)) with (state_after ck (fst (step ck m o)) r).
+  rewrite IH.
+  assert (Hres : resolved (m_cfg (fst (step ck m o))) r = resolved (m_cfg m) r).
+  { unfold resolved. apply flat_map_ext. intros [] ; try reflexivity.
+    rewrite (read_currency_names _ _ (step_names ck m o)). reflexivity. }
+  rewrite Hres.
+  destruct (is_update o) eqn:E.
+  - destruct o; try discriminate E. rewrite step_update.
+    change (resolved (m_cfg m) (OUpdateCurrency cur rate :: r))
+      with ((match read_currency (m_cfg m) cur with Some X => [(X, rate)] | None => [] end) ++ resolved (m_cfg m) r).
+    rewrite fold_left_app.
+    destruct (read_currency (m_cfg m) cur); reflexivity.
+  - destruct (step_other ck m o E) as [Hr _]. rewrite Hr.
+    assert (Hn : resolved (m_cfg m) (o :: r) = resolved (m_cfg m) r).
+    { destruct o; try discriminate E; reflexivity. }
+    rewrite Hn. reflexivity.
+Qed.
+
+(* generic facts about the reference tables *)
+Section TableLemmas.
+Context {R : Type}.
+Implicit Types (t : table R) (us : list (str * R)).
+
+Lemma table_after_ext res1 res2 us : (forall n, res1 n = res2 n) ->
+  forall t1 t2, (forall Y, t1 Y = t2 Y) -> forall Y, table_after res1 t1 us Y = table_after res2 t2 us Y.
+Proof.
+  intro Hres. induction us as [|u r IH]; intros t1 t2 Ht Y; cbn [table_after]; [apply Ht|].
+  apply IH. intro Z. unfold request. rewrite Hres. destruct (res2 (fst u)); cbn [fst]; [|apply Ht].
+  unfold upd. rewrite Ht. reflexivity.
+Qed.
+
+Lemma last_write_acc resolve Y us : forall acc : option R,
+  last_write resolve Y us acc = match last_write resolve Y us None with Some r => Some r | None => acc end.
+Proof.
+  induction us as [|u r IH]; intro acc; cbn [last_write]; [reflexivity|].
+  destruct (resolve (fst u)) as [X|]; [|apply IH].
+  destruct (str_eqb Y X); [|apply IH].
+  rewrite (IH (Some (snd u))). destruct (last_write resolve Y r None); reflexivity.
+Qed.
+
+Theorem table_after_last_write resolve us : forall t Y,
+  table_after resolve t us Y = match last_write resolve Y us None with Some r => Some r | None => t Y end.
+Proof.
+  induction us as [|u r IH]; intros t Y; cbn [table_after last_write]; [reflexivity|].
+  rewrite IH. unfold request. destruct (resolve (fst u)) as [X|]; cbn [fst]; [|reflexivity].
+  unfold upd. destruct (str_eqb Y X); [|reflexivity].
+  rewrite (last_write_acc resolve Y r (Some (snd u))). destruct (last_write resolve Y r None); reflexivity.
+Qed.
+
+Lemma last_write_none resolve Y us :
+  (forall n r X, In (n, r) us -> resolve n = Some X -> X <> Y) -> last_write resolve Y us None = None.
+Proof.
+  induction us as [|[n r] us IH]; intro H; cbn [last_write fst snd]; [reflexivity|].
+  destruct (resolve n) as [X|] eqn:E.
+  - rewrite str_eqb_neq; [apply IH|].
+    + intros n' r' X' Hin. apply (H n' r' X'). right. exact Hin.
+    + intro HY. apply (H n r X); [left; reflexivity|exact E|congruence].
+  - apply IH. intros n' r' X' Hin. apply (H n' r' X'). right. exact Hin.
+Qed.
+
+Theorem table_after_untouched resolve t us Y :
+  (forall n r X, In (n, r) us -> resolve n = Some X -> X <> Y) -> table_after resolve t us Y = t Y.
+Proof. intro H. rewrite table_after_last_write, last_write_none by exact H. reflexivity. Qed.
+
+Theorem table_after_last_wins resolve t us1 n r us2 X :
+  resolve n = Some X ->
+  (forall n' r' X', In (n', r') us2 -> resolve n' = Some X' -> X' <> X) ->
+  table_after resolve t (us1 ++ (n, r) :: us2) X = Some r.
+Proof.
+  intros Hn H. revert t. induction us1 as [|u us1 IH]; intro t.
+  - cbn [app table_after]. rewrite table_after_untouched by exact H.
+    unfold request. cbn [fst snd]. rewrite Hn. cbn [fst]. unfold upd. rewrite str_eqb_refl. reflexivity.
+  - cbn [app table_after]. apply IH.
+Qed.
+End TableLemmas.
+
+Theorem rates_after ck ops : forall m Y,
+  rate_of (m_cfg (state_after ck m ops)) Y =
+  table_after (read_currency (m_cfg m)) (rate_of (m_cfg m)) (updates_of ops) Y.
+Proof.
+  induction ops as [|o r IH]; intros m Y; [reflexivity|].
+  change (state_after ck m (o :: r)) with (state_after ck (fst (step ck m o)) r).
+  rewrite IH.
+  destruct (is_update o) eqn:E.
+  - destruct o; try discriminate E.
+    change (updates_of (OUpdateCurrency cur rate :: r)) with ((cur, rate) :: updates_of r).
+    cbn [table_after]. apply table_after_ext.
+    + intro n. apply read_currency_names. apply step_names.
+    + intro Z. rewrite step_update. unfold request. cbn [fst snd].
+      destruct (read_currency (m_cfg m) cur) as [X|]; cbn [fst]; [|reflexivity].
+      unfold rate_of, upd. cbn [m_cfg with_cfg set_rates cf_rates]. apply assoc_insert_spec.
+  - assert (Hn : updates_of (o :: r) = updates_of r) by (destruct o; try discriminate E; reflexivity).
+    rewrite Hn. apply table_after_ext.
+    + intro n. apply read_currency_names. apply step_names.
+    + intro Z. unfold rate_of. destruct (step_other ck m o E) as [Hr _]. rewrite Hr. reflexivity.
+Qed.
+
+Theorem other_ops_keep_rates ck m o :
+  (forall name r, o <> OUpdateCurrency name r) ->
+  cf_rates (m_cfg (fst (step ck m o))) = cf_rates (m_cfg m) /\
+  cf_currency (m_cfg (fst (step ck m o))) = cf_currency (m_cfg m) /\
+  cf_currency_alias (m_cfg (fst (step ck m o))) = cf_currency_alias (m_cfg m).
+Proof.
+  intro H.
+  assert (E : is_update o = false) by (destruct o; try reflexivity; exfalso; eapply H; reflexivity).
+  destruct (step_other ck m o E) as [Hr Hn]. unfold names_of in Hn. inversion Hn as [[H1 H2]].
+  repeat split; assumption.
+Qed.
+
+Theorem untouched ck m ops Y :
+  (forall n r X, In (n, r) (updates_of ops) -> read_currency (m_cfg m) n = Some X -> X <> Y) ->
+  rate_of (m_cfg (state_after ck m ops)) Y = rate_of (m_cfg m) Y.
+Proof. intro H. rewrite rates_after. apply table_after_untouched. exact H. Qed.
+
+Theorem last_write_wins ck m pre name r post X :
+  read_currency (m_cfg m) name = Some X ->
+  (forall n' r' X', In (n', r') (updates_of post) -> read_currency (m_cfg m) n' = Some X' -> X' <> X) ->
+  rate_of (m_cfg (state_after ck m (pre ++ OUpdateCurrency name r :: post))) X = Some r.
+Proof.
+  intros Hn H. rewrite rates_after.
+  assert (E : updates_of (pre ++ OUpdateCurrency name r :: post) = updates_of pre ++ (name, r) :: updates_of post).
+  { unfold updates_of. rewrite flat_map_app. reflexivity. }
+  rewrite E. apply table_after_last_wins; assumption.
+Qed.
+
+(* one update request *)
+Theorem update_accepted ck m name r X :
+  read_currency (m_cfg m) name = Some X ->
+  let m' := fst (step ck m (OUpdateCurrency name r)) in
+  snd (step ck m (OUpdateCurrency name r)) = MRet (Some true) /\
+  rate_of (m_cfg m') X = Some r /\
+  (forall Y, Y <> X -> rate_of (m_cfg m') Y = rate_of (m_cfg m) Y) /\
+  m_cfg m' = set_rates (m_cfg m) (assoc_insert X r (cf_rates (m_cfg m))) /\
+  m_sessions m' = m_sessions m.
+Proof.
+  intros H m'. subst m'. rewrite step_update, H. cbn [fst snd m_cfg with_cfg m_sessions].
+  unfold rate_of. cbn [set_rates cf_rates].
+  repeat split.
+  - apply assoc_insert_same.
+  - intros Y HY. apply assoc_insert_other. exact HY.
+Qed.
+
+Theorem update_refused ck m name r :
+  read_currency (m_cfg m) name = None ->
+  step ck m (OUpdateCurrency name r) = (m, MRet (Some false)).
+Proof. intro H. rewrite step_update, H. reflexivity. Qed.
+
+Theorem update_returns_false_iff ck m name r :
+  snd (step ck m (OUpdateCurrency name r)) = MRet (Some false) <-> read_currency (m_cfg m) name = None.
+Proof.
+  rewrite step_update. destruct (read_currency (m_cfg m) name); cbn [snd]; split; intro H; try reflexivity; discriminate H.
+Qed.
+
+(* evaluation never changes the calculator's configuration *)
+Theorem exec_keeps_state ck m lang text :
+  fst (step ck m (OExec lang text)) = m /\
+  fst (step ck m (OExecFresh lang text)) = m /\
+  snd (step ck m (OExec lang text)) =
+    match execute LX ck (m_cfg m) lang text with Ok r => MRes r | Panic st => MPanic st end.
+Proof. repeat split; reflexivity. Qed.
+
+Theorem exec_session_keeps_cfg ck m sid : m_cfg (fst (step ck m (OExecSession sid))) = m_cfg m.
+Proof.
+  unfold step. destruct (sess_get sid (m_sessions m)) as [se|]; [|reflexivity].
+  destruct (execute_session LX ck (m_cfg m) se) as [[se' r]|]; reflexivity.
+Qed.
+
+(* where an operation sits in a history *)
+Theorem update_in_history ck m pre name r post :
+  run ck m (pre ++ OUpdateCurrency name r :: post) =
+  run ck m pre ++
+  MRet (Some (match read_currency (m_cfg m) name with Some _ => true | None => false end)) ::
+  run ck (state_after ck m (pre ++ [OUpdateCurrency name r])) post.
+Proof.
+  rewrite run_app. f_equal. rewrite state_after_app.
+  cbn [run state_after fold_left]. rewrite step_update.
+  rewrite (read_currency_after ck pre m name).
+  destruct (read_currency (m_cfg m) name); reflexivity.
+Qed.
+
+Theorem exec_in_history ck m pre lang text post :
+  run ck m (pre ++ OExec lang text :: post) =
+  run ck m pre ++
+  (match execute LX ck (m_cfg (state_after ck m pre)) lang text with Ok r => MRes r | Panic st => MPanic st end) ::
+  run ck (state_after ck m pre) post.
+Proof. rewrite run_app. reflexivity. Qed.
+
+(* histories of rate updates and evaluations: the whole configuration *)
+Definition money_history (ops : list op) : bool :=
+  forallb (fun o => match o with OUpdateCurrency _ _ | OExec _ _ | OExecFresh _ _ => true | _ => false end) ops.
+
+Lemma set_rates_same (c : config F) : set_rates c (cf_rates c) = c.
+Proof. destruct c; reflexivity. Qed.
+Lemma set_rates_twice (c : config F) l1 l2 : set_rates (set_rates c l1) l2 = set_rates c l2.
+Proof. reflexivity. Qed.
+
+Theorem money_history_state ck ops : forall m, money_history ops = true ->
+  state_after ck m ops =
+  with_cfg m (set_rates (m_cfg m)
+               (fold_left (fun l u => assoc_insert (fst u) (snd u) l) (resolved (m_cfg m) ops) (cf_rates (m_cfg m)))).
+Proof.
+  induction ops as [|o r IH]; intros m H.
+  - cbn [state_after fold_left resolved flat_map]. rewrite set_rates_same. destruct m; reflexivity.
+  - cbn [money_history forallb] in H. apply andb_true_iff in H as [Ho Hr].
+    change (state_after ck m (o :: r)) with (state_after ck (fst (step ck m o)) r).
+    rewrite (IH _ Hr).
+    destruct o; try discriminate Ho.
+    + reflexivity.
+    + reflexivity.
+    + rewrite step_update.
+      change (resolved (m_cfg m) (OUpdateCurrency cur rate :: r))
+        with ((match read_currency (m_cfg m) cur with Some X => [(X, rate)] | None => [] end) ++ resolved (m_cfg m) r).
+      rewrite fold_left_app.
+      destruct (read_currency (m_cfg m) cur) as [X|] eqn:E; cbn [fst]; [|reflexivity].
+      assert (Hres : resolved (m_cfg (with_cfg m (set_rates (m_cfg m) (assoc_insert X rate (cf_rates (m_cfg m)))))) r
+                     = resolved (m_cfg m) r).
+      { unfold resolved. apply flat_map_ext. intros []; try reflexivity. }
+      rewrite Hres. reflexivity.
+Qed.
+
+(* ------------------------------------------------------------------------------------- *)
+(* 5. finite-table theorems over the regenerated tables                                   *)
+(* ------------------------------------------------------------------------------------- *)
+Lemma read_currency_lower {G} (c : config G) n1 n2 :
+  to_lowercase n1 = to_lowercase n2 -> read_currency c n1 = read_currency c n2.
+Proof. intro H. unfold read_currency. rewrite H. reflexivity. Qed.
+
+Lemma assoc_keys {A} k (l : list (str * A)) : assoc k l <> None -> In k (map fst l).
+Proof.
+  induction l as [|[k' v] l IH]; cbn [assoc map fst]; intro H; [contradiction|].
+  destruct (str_eqb k k') eqn:E.
+  - left. symmetry. apply str_eqb_eq. exact E.
+  - right. auto.
+Qed.
+
+Definition found_as {G} (c : config G) (name code : str) : bool :=
+  match read_currency c name with Some X => str_eqb X code | None => false end.
+
+Lemma found_as_eq {G} (c : config G) name code : found_as c name code = true -> read_currency c name = Some code.
+Proof.
+  unfold found_as. destruct (read_currency c name); [|discriminate]. intro H. apply str_eqb_eq in H. congruence.
+Qed.
+
+(* the codes of the currency table *)
+Definition table_codes {G} (c : config G) : list str := map (fun kv => c_code (snd kv)) (cf_currency c).
+
+Definition code_check {G} (c : config G) (code : str) : bool :=
+  found_as c (to_lowercase code) code && found_as c (to_uppercase code) code && found_as c code code
+  && str_eqb (to_lowercase (to_lowercase code)) (to_lowercase code)
+  && str_eqb (to_lowercase (to_uppercase code)) (to_lowercase code).
+
+Lemma codes_checked : forallb (code_check default_config) (table_codes default_config) = true.
+Proof. vm_compute. reflexivity. Qed.
+
+Lemma rated_are_codes :
+  forallb (fun k => mem_str k (table_codes default_config)) (map fst (cf_rates default_config)) = true.
+Proof. vm_compute. reflexivity. Qed.
+
+Lemma mem_str_In x l : mem_str x l = true -> In x l.
+Proof.
+  induction l as [|y l IH]; cbn [mem_str]; intro H; [discriminate|].
+  apply orb_true_iff in H as [H|H]; [left; symmetry; apply str_eqb_eq; exact H|right; auto].
+Qed.
+
+(* every currency of the table is found under its code, in any letter case *)
+Theorem code_found_any_case : forall code name,
+  In code (table_codes default_config) ->
+  to_lowercase name = to_lowercase code ->
+  read_currency default_config name = Some code.
+Proof.
+  intros code name Hin Hlow.
+  pose proof (proj1 (forallb_forall _ _) codes_checked code Hin) as H.
+  unfold code_check in H. repeat (apply andb_true_iff in H as [H ?]).
+  rewrite (read_currency_lower default_config name code Hlow).
+  apply found_as_eq. assumption.
+Qed.
+
+Theorem code_found_lower_upper : forall code,
+  In code (table_codes default_config) ->
+  read_currency default_config (to_lowercase code) = Some code /\
+  read_currency default_config (to_uppercase code) = Some code /\
+  read_currency default_config code = Some code.
+Proof.
+  intros code Hin.
+  pose proof (proj1 (forallb_forall _ _) codes_checked code Hin) as H.
+  unfold code_check in H. repeat (apply andb_true_iff in H as [H ?]).
+  repeat split; apply found_as_eq; assumption.
+Qed.
+
+Theorem rated_is_code : forall A, rate_of default_config A <> None -> In A (table_codes default_config).
+Proof.
+  intros A H. apply assoc_keys in H. apply mem_str_In.
+  exact (proj1 (forallb_forall _ _) rated_are_codes A H).
+Qed.
+
+Theorem rated_found_any_case : forall A name,
+  rate_of default_config A <> None ->
+  to_lowercase name = to_lowercase A ->
+  read_currency default_config name = Some A.
+Proof. intros A name H. apply code_found_any_case. apply rated_is_code. exact H. Qed.
+
+(* every alias resolves to a currency of the table that has a rate *)
+Definition alias_check {G} (c : config G) (kv : str * str) : bool :=
+  match assoc (snd kv) (cf_currency c) with
+  | Some cur => found_as c (fst kv) (c_code cur) && found_as c (to_uppercase (fst kv)) (c_code cur)
+                && assoc_mem (c_code cur) (cf_rates c)
+  | None => false
+  end.
+
+Lemma aliases_checked : forallb (alias_check default_config) (cf_currency_alias default_config) = true.
+Proof. vm_compute. reflexivity. Qed.
+
+Theorem alias_resolves : forall al key,
+  In (al, key) (cf_currency_alias default_config) ->
+  exists cur, assoc key (cf_currency default_config) = Some cur /\
+              read_currency default_config al = Some (c_code cur) /\
+              read_currency default_config (to_uppercase al) = Some (c_code cur) /\
+              rate_of default_config (c_code cur) <> None.
+Proof.
+  intros al key Hin.
+  pose proof (proj1 (forallb_forall _ _) aliases_checked (al, key) Hin) as H.
+  unfold alias_check in H. cbn [fst snd] in H.
+  destruct (assoc key (cf_currency default_config)) as [cur|]; [|discriminate].
+  repeat (apply andb_true_iff in H as [H ?]).
+  exists cur. repeat split; try (apply found_as_eq; assumption).
+  unfold rate_of. unfold assoc_mem in *. destruct (assoc (c_code cur) (cf_rates default_config)); [discriminate|discriminate].
+Qed.
+
+(* rates: finite and positive at binary64, non-zero as exact decimals *)
+Definition rate_check (kv : str * F) : bool :=
+  match fcls (snd kv) with FFinite => fltb f0 (snd kv) | _ => false end.
+
+Lemma rates_checked : forallb rate_check (cf_rates default_config) = true.
+Proof. vm_compute. reflexivity. Qed.
+
+Theorem rates_finite_positive : forall A r,
+  rate_of default_config A = Some r -> fcls r = FFinite /\ fltb f0 r = true.
+Proof.
+  intros A r H. apply assoc_In in H.
+  pose proof (proj1 (forallb_forall _ _) rates_checked (A, r) H) as H'.
+  unfold rate_check in H'. cbn [snd] in H'. destruct (fcls r); try discriminate. split; [reflexivity|exact H'].
+Qed.
+
+Theorem default_tables :
+  cf_currency default_config = d_currency /\ cf_currency_alias default_config = d_currency_alias /\
+  cf_rates default_config = d_rates.
+Proof. vm_compute. repeat split; reflexivity. Qed.
+
+(* the same tables over exact rationals (rates as the decimals written in config.json) *)
+Definition qconfig : config Qc := base_config.
+
+Lemma q_rates_checked : forallb (fun kv : str * Qc => negb (Qc_eq_bool (snd kv) (Q2Qc 0))) (cf_rates qconfig) = true.
+Proof. vm_compute. reflexivity. Qed.
+
+Theorem q_rates_nonzero : forall A r, rate_of qconfig A = Some r -> r <> Q2Qc 0.
+Proof.
+  intros A r H. apply assoc_In in H.
+  pose proof (proj1 (forallb_forall _ _) q_rates_checked (A, r) H) as H'. cbn [snd] in H'.
+  intro E. subst r. unfold Qc_eq_bool in H'. destruct (Qc_eq_dec (Q2Qc 0) (Q2Qc 0)); [discriminate|congruence].
+Qed.
+
+(* the fields the rule `{MONEY:money} {GROUP:conversion:conversion_group} {TEXT:currency}` binds *)
+Definition money_fields {G} {NG : Num G} (a : G) (A : str) (name : str) : fields G :=
+  [(s "currency", ti_of (TText name)); (s "money", ti_of (TMoney a A))].
+
+(* all ordered pairs of rated currencies, all amounts, the target written in any letter case *)
+Theorem all_pairs_f64 : forall (vs : vars F) (a : F) A B rA rB name,
+  rate_of default_config A = Some rA -> rate_of default_config B = Some rB ->
+  to_lowercase name = to_lowercase B ->
+  convert_money default_config vs (money_fields a A name)
+  = Ok (Some (TMoney (fmul (do_division a rA) rB) B)).
+Proof.
+  intros vs a A B rA rB name HA HB Hn.
+  apply (convert_money_ops default_config vs _ a A B rA rB); try assumption; try reflexivity.
+  change (read_currency default_config name = Some B).
+  apply rated_found_any_case; [congruence|exact Hn].
+Qed.
+
+Lemma q_codes_checked : forallb (code_check qconfig) (map fst (cf_rates qconfig)) = true.
+Proof. vm_compute. reflexivity. Qed.
+
+Theorem all_pairs_Q : forall (vs : vars Qc) (a : Qc) A B rA rB name,
+  rate_of qconfig A = Some rA -> rate_of qconfig B = Some rB ->
+  to_lowercase name = to_lowercase B ->
+  convert_money qconfig vs (money_fields a A name) = Ok (Some (TMoney (conv rA rB a) B)).
+Proof.
+  intros vs a A B rA rB name HA HB Hn.
+  apply (convert_money_Q qconfig vs _ a A B rA rB); try assumption; try reflexivity.
+  - change (read_currency qconfig name = Some B).
+    rewrite (read_currency_lower qconfig name B Hn).
+    assert (Hin : In B (map fst (cf_rates qconfig))) by (apply assoc_keys; unfold rate_of in HB; congruence).
+    pose proof (proj1 (forallb_forall _ _) q_codes_checked B Hin) as H.
+    unfold code_check in H. repeat (apply andb_true_iff in H as [H ?]).
+    apply found_as_eq. assumption.
+  - apply (q_rates_nonzero A). exact HA.
+Qed.
+
+(* reachable states: whatever updates were made, a currency that has a rate is a currency of
+   the table and is found under its code in any letter case *)
+Lemma read_currency_is_code {G} (c : config G) n X :
+  read_currency c n = Some X -> In X (table_codes c).
+Proof.
+  unfold read_currency, table_codes.
+  destruct (match assoc (to_lowercase n) (cf_currency_alias c) with
+            | Some key => Some key
+            | None => if assoc_mem (to_lowercase n) (cf_currency c) then Some (to_lowercase n) else None end) as [key|];
+    [|discriminate].
+  destruct (assoc key (cf_currency c)) as [cur|] eqn:E; [|discriminate].
+  cbn [option_map]. intro H. inversion H; subst. apply assoc_In in E.
+  apply (in_map (fun kv => c_code (snd kv)) _ _ E).
+Qed.
+
+Definition rated_are_table_codes (c : config F) : Prop :=
+  forall A, rate_of c A <> None -> In A (table_codes c).
+
+Lemma table_codes_names (c1 c2 : config F) : names_of c1 = names_of c2 -> table_codes c1 = table_codes c2.
+Proof. unfold names_of, table_codes. intro H. inversion H as [[H1 H2]]. rewrite H1. reflexivity. Qed.
+
+Lemma step_rated_codes ck m o :
+  rated_are_table_codes (m_cfg m) -> rated_are_table_codes (m_cfg (fst (step ck m o))).
+Proof.
+  intros Inv A. rewrite (table_codes_names _ _ (step_names ck m o)).
+  destruct (is_update o) eqn:E.
+  - destruct o; try discriminate E. rewrite step_update.
+    destruct (read_currency (m_cfg m) cur) as [X|] eqn:HX; cbn [fst]; [|apply Inv].
+    unfold rate_of. cbn [m_cfg with_cfg set_rates cf_rates]. rewrite assoc_insert_spec.
+    destruct (str_eqb A X) eqn:EA.
+    + intros _. apply str_eqb_eq in EA. subst A. apply (read_currency_is_code _ _ _ HX).
+    + apply Inv.
+  - unfold rate_of. destruct (step_other ck m o E) as [Hr _]. rewrite Hr. apply Inv.
+Qed.
+
+Lemma state_after_rated_codes ck ops : forall m,
+  rated_are_table_codes (m_cfg m) -> rated_are_table_codes (m_cfg (state_after ck m ops)).
+Proof.
+  induction ops as [|o r IH]; intros m Inv; [exact Inv|].
+  change (state_after ck m (o :: r)) with (state_after ck (fst (step ck m o)) r).
+  apply IH. apply step_rated_codes. exact Inv.
+Qed.
+
+Theorem reachable_rated_found ck ops : forall A name,
+  rate_of (m_cfg (state_after ck init_state ops)) A <> None ->
+  to_lowercase name = to_lowercase A ->
+  read_currency (m_cfg (state_after ck init_state ops)) name = Some A.
+Proof.
+  intros A name H Hn. rewrite read_currency_after. cbn [m_cfg init_state].
+  apply code_found_any_case; [|exact Hn].
+  pose proof (state_after_rated_codes ck ops init_state rated_is_code A H) as Hin.
+  rewrite (table_codes_names _ _ (names_after ck ops init_state)) in Hin. exact Hin.
+Qed.
+
+(* ... and so the conversion rule applies between any two currencies that have a rate after
+   any history, with the rates current at that point *)
+Theorem reachable_all_pairs ck ops : forall (vs : vars F) (a : F) A B rA rB name,
+  let cfg := m_cfg (state_after ck init_state ops) in
+  rate_of cfg A = Some rA -> rate_of cfg B = Some rB ->
+  to_lowercase name = to_lowercase B ->
+  convert_money cfg vs (money_fields a A name) = Ok (Some (TMoney (fmul (do_division a rA) rB) B)).
+Proof.
+  intros vs a A B rA rB name cfg HA HB Hn.
+  apply (convert_money_ops cfg vs _ a A B rA rB); try assumption; try reflexivity.
+  change (read_currency cfg name = Some B).
+  apply reachable_rated_found; [fold cfg; congruence|exact Hn].
+Qed.
